@@ -28,7 +28,7 @@ META = {
                 "text for the regex parser; covered only by the concrete table obligation 'literals/table' (reported as a concrete side check)",
                 "expression depth above the stated bound"],
     "structure": "every operator alone x 5 operand kinds; all 144 infix pairs; 96 prefix/infix combinations; grouping styles () <> ^x..x on both "
-                 "sides; seeded deeper trees",
+                 "sides; seeded deeper trees; one statement at several addresses ('.repeat 3 { .word (. + A) op C }'); operands defined further down while an earlier file exports the same names",
     "stubs": [],
 }
 
